@@ -3,6 +3,7 @@ package main
 // One long-lived SMT solver process per worker, driven over a pipe.
 
 import (
+	"os"
 	"bufio"
 	"fmt"
 	"io"
@@ -36,6 +37,8 @@ type Solver struct {
 	Errors  []string
 	timeout int // ms
 	log     io.Writer
+	Note    string
+	SymW    func(id int) uint8
 }
 
 func solverArgs(name string, timeoutMs int) (string, []string) {
@@ -68,6 +71,9 @@ func NewSolver(name string, timeoutMs int) (*Solver, error) {
 		return nil, err
 	}
 	s := &Solver{name: name, cmd: cmd, in: in, out: bufio.NewReaderSize(out, 1<<16), timeout: timeoutMs}
+	if f := os.Getenv("GOSX_SMTLOG"); f != "" {
+		s.log, _ = os.Create(fmt.Sprintf("%s.%d", f, cmd.Process.Pid))
+	}
 	s.defined = []map[uint32]bool{{}}
 	s.syms = []map[int]uint8{{}}
 	if strings.HasPrefix(name, "cvc5") {
@@ -175,6 +181,17 @@ func (s *Solver) emitRec(t *Term, sb *strings.Builder, top map[uint32]bool, topS
 				stack = stack[:len(stack)-1]
 				continue
 			}
+			if n.sv >= 0 && (n.size >= 4 || n.op == OpTbl) && s.SymW != nil && s.SymW(int(n.sv)) == 8 {
+				// a function of one byte: emit its value table compactly instead of the expression
+				if !s.symDeclared(int(n.sv)) {
+					topSyms[int(n.sv)] = 8
+					fmt.Fprintf(sb, "(declare-const %s %s)\n", symName(int(n.sv)), sortOf(8))
+				}
+				top[n.id] = true
+				emitCompact(sb, n)
+				stack = stack[:len(stack)-1]
+				continue
+			}
 			f.stage = 1
 			if n.z != nil {
 				stack = append(stack, fr{n.z, 0})
@@ -215,6 +232,11 @@ func (s *Solver) readLine() string {
 
 func (s *Solver) Check() SatResult {
 	t0 := time.Now()
+	defer func() {
+		if d := time.Since(t0); d > 500*time.Millisecond && slowLog {
+			fmt.Fprintf(os.Stderr, "slow query %.1fs: %s\n", d.Seconds(), s.Note)
+		}
+	}()
 	s.send("(check-sat)\n")
 	s.Queries++
 	for {
@@ -361,4 +383,108 @@ func (s *Solver) Values(syms map[int]uint8) (map[int]uint64, error) {
 		res[id] = v
 	}
 	return res, nil
+}
+
+var slowLog = os.Getenv("GOSX_SLOWLOG") != ""
+
+// emitCompact defines n (a term over a single 8-bit symbol) by its value table: a disjunction of
+// input ranges for booleans, a chain of range tests with constant or input+delta pieces otherwise.
+func emitCompact(sb *strings.Builder, n *Term) {
+	var vals [256]uint64
+	env := &evalEnv{}
+	for b := 0; b < 256; b++ {
+		env.gen = newEvalGen()
+		bb := uint64(b)
+		env.get = func(int, uint8) uint64 { return bb }
+		vals[b] = n.eval(env)
+	}
+	sym := symName(int(n.sv))
+	fmt.Fprintf(sb, "(define-fun t%d () %s ", n.id, sortOf(n.w))
+	if n.w == 0 {
+		var parts []string
+		for b := 0; b < 256; {
+			if vals[b] == 0 {
+				b++
+				continue
+			}
+			e := b
+			for e+1 < 256 && vals[e+1] != 0 {
+				e++
+			}
+			switch {
+			case b == 0 && e == 255:
+				parts = append(parts, "true")
+			case b == e:
+				parts = append(parts, fmt.Sprintf("(= %s %s)", sym, constLit(8, uint64(b))))
+			case b == 0:
+				parts = append(parts, fmt.Sprintf("(bvule %s %s)", sym, constLit(8, uint64(e))))
+			case e == 255:
+				parts = append(parts, fmt.Sprintf("(bvule %s %s)", constLit(8, uint64(b)), sym))
+			default:
+				parts = append(parts, fmt.Sprintf("(and (bvule %s %s) (bvule %s %s))", constLit(8, uint64(b)), sym, sym, constLit(8, uint64(e))))
+			}
+			b = e + 1
+		}
+		switch len(parts) {
+		case 0:
+			sb.WriteString("false")
+		case 1:
+			sb.WriteString(parts[0])
+		default:
+			sb.WriteString("(or " + strings.Join(parts, " ") + ")")
+		}
+		sb.WriteString(")\n")
+		return
+	}
+	// bit-vector valued: runs that are constant or input+delta
+	type run struct {
+		hi    int
+		konst bool
+		v     uint64
+	}
+	m := mask(n.w)
+	var runs []run
+	for b := 0; b < 256; {
+		e := b
+		for e+1 < 256 && vals[e+1] == vals[b] {
+			e++
+		}
+		if e > b {
+			runs = append(runs, run{hi: e, konst: true, v: vals[b]})
+			b = e + 1
+			continue
+		}
+		d := (vals[b] - uint64(b)) & m
+		for e+1 < 256 && (vals[e+1]-uint64(e+1))&m == d {
+			e++
+		}
+		if e > b {
+			runs = append(runs, run{hi: e, konst: false, v: d})
+		} else {
+			runs = append(runs, run{hi: e, konst: true, v: vals[b]})
+		}
+		b = e + 1
+	}
+	ext := sym
+	if n.w > 8 {
+		ext = fmt.Sprintf("((_ zero_extend %d) %s)", n.w-8, sym)
+	}
+	piece := func(r run) string {
+		if r.konst {
+			return constLit(n.w, r.v)
+		}
+		if r.v == 0 {
+			return ext
+		}
+		return fmt.Sprintf("(bvadd %s %s)", ext, constLit(n.w, r.v))
+	}
+	for i, r := range runs {
+		if i == len(runs)-1 {
+			sb.WriteString(piece(r))
+		} else {
+			fmt.Fprintf(sb, "(ite (bvule %s %s) %s ", sym, constLit(8, uint64(r.hi)), piece(r))
+		}
+	}
+	sb.WriteString(strings.Repeat(")", len(runs)-1))
+	sb.WriteString(")\n")
 }
